@@ -35,6 +35,11 @@ CHECKS = {
     technique="TLA+ module Features.tla (one restricting-feature placement per model; Sem from the statement vs Impl transcribing FeatureChecker) evaluated by TLC on the whole universe; every model rendered, parsed and get_supported_methods() compared with Sem",
     text="TLC evaluates Impl=>Sem for 1114 placements (fp comparison: role x operator x operand order x position; fp assignment; clock initialiser; rate incl. fp rate; channel kind x scope x shape; dynamic templates; priorities) x 5 instantiation modes and exports them; libutap must not report a method the semantics forbids, in either declaration order.",
     note="Function-shaped module (states = exported placements). One feature per model; non-constant rates count as permitted (pinned by the repository's own test)."),
+ "C02": dict(
+    category="model_checking", design_ref="DESIGN.md section 5 (C02), 2.1, 2.2",
+    technique="TLA+: Lang.tla (operator table, trees, minimal/full rendering, RPN) composed with LR.tla, the bison automaton extracted from the working tree's parser.y; TLC checks Parse(Render(t)).out = RPN(t) on all trees; the same strings replayed through the real lexer/parser (callback sequence = RPN(t)) and ExpressionBuilder (tree = t)",
+    text="Every operator at every operand position of every operator (5830 trees quick, +38k depth-3 thorough) is rendered with minimal and full parentheses; TLC runs the extracted LALR tables on the token strings and compares the emitted callbacks with RPN(t); the real parser must emit the same callbacks, build the same tree, also when embedded in guards/updates/invariants/initialisers/statements/queries; integer and floating literal boundaries are checked on the real lexer.",
+    note="Trusts TLC, bison's XML report (cross-checked by replay), the operator table in Lang.tla (from the language documentation), python float() for decimal->binary64. Known finding: `x ? y : z = b` (inline-if rule carries %prec T_ASSIGNMENT)."),
 }
 NOT_APPLICABLE = {}
 PENDING_REASON = "check not built yet (work in progress; see DESIGN.md section 5 for the plan)"
